@@ -550,6 +550,12 @@ func (fd *Client) BatchWriteItem(input *dynamodb.BatchWriteItemInput) (*dynamodb
 		return &dynamodb.BatchWriteItemOutput{}, err
 	}
 
+	// the whole batch is validated before any request is applied: an invalid request must not
+	// leave the requests that precede it applied
+	if err := fd.validateBatchWriteRequests(input); err != nil {
+		return &dynamodb.BatchWriteItemOutput{}, err
+	}
+
 	unprocessed := map[string][]*dynamodb.WriteRequest{}
 
 	for table, reqs := range input.RequestItems {
@@ -602,6 +608,32 @@ func validateBatchWriteItemInput(input *dynamodb.BatchWriteItemInput) error {
 
 	if count > batchRequestsLimit {
 		return awserr.New("ValidationException", "Too many items requested for the BatchWriteItem call", nil)
+	}
+
+	return nil
+}
+
+func (fd *Client) validateBatchWriteRequests(input *dynamodb.BatchWriteItemInput) error {
+	fd.mu.Lock()
+	defer fd.mu.Unlock()
+
+	for tableName, reqs := range input.RequestItems {
+		table, err := fd.getTable(tableName)
+		if err != nil {
+			return err
+		}
+
+		for _, req := range reqs {
+			if req.PutRequest != nil {
+				err = table.ValidatePut(mapAttributeValueToTypes(req.PutRequest.Item))
+			} else {
+				err = table.ValidateKey(mapAttributeValueToTypes(req.DeleteRequest.Key))
+			}
+
+			if err != nil {
+				return err
+			}
+		}
 	}
 
 	return nil
